@@ -133,28 +133,51 @@ def import_rules():
         importlib.import_module("rules." + mi.name)
 
 
-def run_rules(prog, rule_ids, errors=None):
-    """Runs every rule; a rule that cannot analyse today's tree (anchor vanished, floor not met, internal error) is recorded in
-    `errors` and does not stop the other rules - a violation found by another rule must not be hidden behind it.  Without an
-    `errors` list the first such problem is raised."""
+def _run_one(prog, rid):
+    """-> (RuleRun, error text or None)"""
+    r = RULES[rid]
+    rr = RuleRun(r, prog)
+    err = None
+    try:
+        r.fn(prog, rr)
+        if len(rr.instances) < r.floor:
+            raise AnalysisError("[%s] analysed %d instances, floor is %d (anchor vanished or idiom not recognised)"
+                                % (rid, len(rr.instances), r.floor))
+    except AnalysisError as e:
+        err = str(e) if str(e).startswith("[") else "[%s] %s" % (rid, e)
+    except Exception:
+        err = "[%s] internal error: %s" % (rid, traceback.format_exc().strip().splitlines()[-1])
+        traceback.print_exc()
+    return rr, err
+
+
+def run_rules(prog, rule_ids, errors=None, nf_factory=None):
+    """Runs every rule on the tree as written.  A rule that reports findings or cannot analyse the tree (anchor vanished, floor not
+    met) is run again on the semantics-preserving normal form (sa/normalize.py: private helpers inlined, aliases folded, enumerate
+    undone); if it is clean there - or reports strictly fewer findings, all of which it also reported on the tree as written - that
+    result stands, because the two programs behave identically.  A rule that still cannot analyse is recorded in `errors` and does
+    not stop the other rules: a violation found by another rule must not be hidden behind it."""
     runs = []
     for rid in rule_ids:
-        r = RULES[rid]
-        rr = RuleRun(r, prog)
-        try:
-            r.fn(prog, rr)
-            if len(rr.instances) < r.floor:
-                raise AnalysisError("[%s] analysed %d instances, floor is %d (anchor vanished or idiom not recognised)"
-                                    % (rid, len(rr.instances), r.floor))
-        except AnalysisError as e:
+        rr, err = _run_one(prog, rid)
+        if (err or rr.findings) and nf_factory is not None:
+            nf = nf_factory()
+            if nf is not None:
+                rr2, err2 = _run_one(nf, rid)
+                raw_keys = {f.key for f in rr.findings}
+                nf_keys = {f.key for f in rr2.findings}
+                if err2 is None and (nf_keys <= raw_keys or err is not None) and (err is not None or len(nf_keys) < len(raw_keys)):
+                    # keep the raw positions for findings both forms report
+                    by_key = {f.key: f for f in rr.findings}
+                    rr2.findings = [by_key.get(f.key, f) for f in rr2.findings]
+                    rr2.notes.append("evaluated on the normal form (private helpers inlined, aliases folded): the tree as written gave %s"
+                                     % (err or "%d finding(s)" % len(rr.findings)))
+                    rr2.on_normal_form = True
+                    rr, err = rr2, None
+        if err:
             if errors is None:
-                raise
-            errors.append((rid, str(e) if str(e).startswith("[") else "[%s] %s" % (rid, e)))
-        except Exception:
-            if errors is None:
-                raise
-            errors.append((rid, "[%s] internal error: %s" % (rid, traceback.format_exc().strip().splitlines()[-1])))
-            traceback.print_exc()
+                raise AnalysisError(err)
+            errors.append((rid, err))
         runs.append(rr)
     return runs
 
@@ -181,7 +204,17 @@ def check_property(prop, tier, repo="/repo", seed=0, write_evidence=True, only_r
         if not rids:
             raise AnalysisError("no armed rule for property %s" % prop)
         errors = []
-        runs = run_rules(prog, rids, errors)
+
+        def nf_factory():
+            key = (repo, "nf")
+            if key not in _PROGS:
+                try:
+                    _PROGS[key] = Program(repo, form="nf")
+                except Exception:
+                    traceback.print_exc()
+                    _PROGS[key] = None
+            return _PROGS[key]
+        runs = run_rules(prog, rids, errors, nf_factory)
     except AnalysisError as e:
         print("ANALYSIS-ERROR property=%s %s" % (prop, e))
         return 2
